@@ -83,6 +83,11 @@ type State struct {
 	jsonMaps   map[string]int
 	bulk       []func(st *State, idx Term) Term // pointwise table definitions, instantiated per obligation
 	inst       map[string][]func(st *State, t Term) Term // universally quantified facts, instantiated per obligation on terms of a sort
+	cursor      map[int]Term // current row (Skolem DocId) of each open cursor
+	lastCursor  Term
+	lastCursorDocs Term
+	entry       *State // state at the entry of the function under contract (for old() in loop invariants)
+	loopMark    map[string]int
 	loopVisited map[string]Term
 	loopKey     map[string]Term
 }
@@ -218,6 +223,7 @@ type Engine struct {
 	forkChecks int
 	nowrapSites []nowrapSite
 	wantNowrap bool
+	lazyCells  map[string]int
 	known      *KnownFile
 	prop       string
 	cellNames  map[int]string
@@ -321,7 +327,19 @@ func (e *Engine) symbolicOf(st *State, t types.Type, name string, depth int) Val
 		if v, ok := e.abstractHandle(st, t, name); ok {
 			return v
 		}
-		cell := e.newCell(st, VLazy{u.Elem(), name})
+		// deterministic cell per input path: the same input pointer is the same cell in every state
+		cell, ok := e.lazyCells[name]
+		if !ok {
+			e.nextCell++
+			cell = e.nextCell
+			e.lazyCells[name] = cell
+		}
+		if _, present := st.heap[cell]; !present {
+			st.heap[cell] = VLazy{u.Elem(), name}
+		}
+		if _, named := e.cellNames[cell]; !named {
+			e.cellNames[cell] = name
+		}
 		return VPtr{Cell: cell}
 	case *types.Struct:
 		if v, ok := e.abstractHandle(st, t, name); ok {
